@@ -1030,11 +1030,22 @@ class PolarsModel(data_algebra.data_model.DataModel):
         how = op.jointype.lower()
         if how == "full":
             how = "outer"
+        on_a = list(op.on_a)
+        on_b = list(op.on_b)
+        if len(on_a) == 0:
+            # no key columns: every pair of rows matches. Polars wants keys for every
+            # join type but cross, so join on a constant scratch column.
+            scratch_col = "_da_join_tmp_no_key"
+            inputs = [inp.with_columns(pl.lit(1).alias(scratch_col)) for inp in inputs]
+            on_a = [scratch_col]
+            on_b = [scratch_col]
+            if how == "cross":
+                how = "inner"
         if how != "right":
             coalesce_columns = set(op.sources[0].columns_produced()).intersection(
                 op.sources[1].columns_produced()
             ) - set(op.on_a)
-            orphan_keys = [c for c in op.on_b if c not in set(op.on_a)]
+            orphan_keys = [c for c in on_b if c not in set(on_a)]
             input_right = inputs[1]
             if len(orphan_keys) > 0:
                 input_right = input_right.with_columns(
@@ -1042,11 +1053,11 @@ class PolarsModel(data_algebra.data_model.DataModel):
                 )
             res = inputs[0].join(
                 input_right,
-                left_on=op.on_a,
-                right_on=op.on_b,
+                left_on=on_a,
+                right_on=on_b,
                 how=how,
                 suffix="_da_right_tmp",
-                coalesce=(True if how != "cross" else None),
+                coalesce=True,
             )
             if len(coalesce_columns) > 0:
                 res = res.with_columns(
@@ -1065,7 +1076,7 @@ class PolarsModel(data_algebra.data_model.DataModel):
             coalesce_columns = set(op.sources[0].columns_produced()).intersection(
                 op.sources[1].columns_produced()
             ) - set(op.on_b)
-            orphan_keys = [c for c in op.on_a if c not in set(op.on_b)]
+            orphan_keys = [c for c in on_a if c not in set(on_b)]
             input_right = inputs[0]
             if len(orphan_keys) > 0:
                 input_right = input_right.with_columns(
@@ -1073,8 +1084,8 @@ class PolarsModel(data_algebra.data_model.DataModel):
                 )
             res = inputs[1].join(
                 input_right,
-                left_on=op.on_b,
-                right_on=op.on_a,
+                left_on=on_b,
+                right_on=on_a,
                 how="left",
                 suffix="_da_left_tmp",
             )
